@@ -16,6 +16,7 @@ import Drv.Preds
 import Drv.IR
 import Drv.Macro
 import Drv.Conv
+import Drv.Quasigo
 /-!
 Line-protocol driver: one operation per line on stdin, one canonical answer line on stdout.
 Every engine exports `handle : List String → Option String` answering only its own ops;
@@ -41,7 +42,8 @@ def handlers : List (List String → Option String) := [
   Drv.Preds.handle,
   Drv.IRPrint.handle,
   Drv.MacroE.handle,
-  Drv.ConvE.handle
+  Drv.ConvE.handle,
+  Drv.Quasigo.handle
 ]
 
 def dispatch (fs : List String) : Option String :=
